@@ -346,7 +346,7 @@ def rule_safe_urlsplit(ctx, rule):
     ctx.fn(sref.qualname)
     site = ut.site(sref.node)
     ex = P.Extractor(repo, atomic=set())
-    t = ex.result_term(ex.function(sref))
+    t = P.strip_inl(ex.result_term(ex.function(sref)))
     url = ("param", "url")
     PROTO = "ural.patterns.PROTOCOL_RE"
 
